@@ -71,10 +71,10 @@ def run(r):
     bad, stats, tags = C05.explore_handlers(r, random.Random(r.seed * 11 + 4), int(os.environ.get("VERIF_H2_WORKSPACES", 8 if quick else 100)), stdlib)
     seen = set()
     for b in bad:
-        if not (b["why"].startswith("a code lens count") or b["why"].startswith("the incoming calls")) or b["why"] in seen:
+        if not (b["why"].startswith("a code lens count") or b["why"].startswith("the incoming calls") or b["why"].startswith("the references of a definition")) or b["why"] in seen:
             continue
         seen.add(b["why"])
         r.violation(dict({"property": PID, "part": "handlers"}, **b), "h2_%d" % len(seen))
-    r.notes.append("handler part: %s" % json.dumps({k: v for k, v in stats.items() if k in ("workspaces", "code_lens", "incoming")}))
+    r.notes.append("handler part: %s" % json.dumps({k: v for k, v in stats.items() if k in ("workspaces", "code_lens", "incoming", "references_inverse")}))
     r.extra_coverage = {"handler_part": {k: v for k, v in stats.items() if k in ("workspaces", "code_lens", "incoming")}}
     return runner.drive_ws(r, sys.modules[__name__])
